@@ -84,6 +84,8 @@ def run_check(spec, tier='quick', seed=0, replay=None):
         targets = ([spec.driver] if spec.driver else []) + mods
         b = core.lake_build(targets)
         driver_ok = (not spec.driver) or b[spec.driver][0]
+        if spec.driver and driver_ok:
+            core.snapshot_driver(spec.driver)
         if not driver_ok:
             f, ln, msg = core.first_lean_error(b[spec.driver][1])
             problems.append(('proof', f'model/driver {spec.driver} does not build: {f}:{ln}: {msg}'))
